@@ -5,6 +5,7 @@ One exploration evaluates every oracle; each property's check keeps its own."""
 from __future__ import annotations
 
 import json
+import re
 
 import httpcore
 
@@ -220,6 +221,30 @@ class ConcHarness:
                             why = "a closed connection occupies a slot"
                         if why and "c07" not in c04:
                             c04["c07"] = f"request for {origin} is queued at quiescence although {why}; pool={pool!r} {conns}"
+            # C12 head-of-line: at full quiescence (nothing runnable, no I/O in flight - only the server may still speak) a request
+            # that was handed an HTTP/2 connection with a free stream slot must be on the wire; if it is not, it waits behind
+            # another request's *response*, which the server is free to withhold for ever
+            if not world.loop.live_ready() and not world.net.pending and "c12" not in c04:
+                seen = None
+                for pr in pool._requests:
+                    c = getattr(pr, "connection", None)
+                    if c is None:
+                        continue
+                    h2c, hops = c, 0
+                    while h2c is not None and not hasattr(h2c, "_h2_state") and hops < 4:
+                        h2c, hops = getattr(h2c, "_connection", None), hops + 1
+                    if h2c is None or not hasattr(h2c, "_h2_state") or not getattr(h2c, "_sent_connection_init", False):
+                        continue
+                    if not h2c.is_available() or len(h2c._events) >= h2c._max_streams:
+                        continue
+                    m_ = re.match(rb"^/t/([A-Za-z0-9_.-]+)", pr.request.url.target)
+                    if not m_:
+                        continue
+                    if seen is None:
+                        seen = {t for t in topo.seen_tokens()}
+                    if m_.group(1) not in seen and m_.group(1).decode() not in seen:
+                        c04["c12"] = (f"request {pr.request.url.target!r} was handed {c!r} ({len(h2c._events)} of {h2c._max_streams} streams in use) but has not been sent "
+                                      f"although nothing is runnable and no I/O is in flight: it waits behind another request's response")
 
         w.monitors.append(mon)
 
@@ -518,6 +543,8 @@ class ConcHarness:
             viol("C04", "open-stream-overshoot", c04["open"])
         if "c07" in c04:
             viol("C07", "serviceable-waiter", c04["c07"])
+        if "c12" in c04:
+            viol("C12", "request-not-written", c04["c12"])
         # ---- C05
         after = post["after"]
         if after["requests"] != 0 or "Requests: 0 active, 0 queued" not in after["repr"]:
@@ -700,6 +727,11 @@ def scenarios(pid, tier):
                 out.append(S(ct, [W, "req:a", "req:a", "req:a"], max_connections=1, h2script={"frag": 2}, early=False))
                 out.append(S(ct, [W, "req:a", "req:a", "req:a", "req:a"], max_connections=1, h2cfg={"max_streams": 3}, h2script={"settings": [1], "rst": 1}, early=False))
                 out.append(S(ct, [W, "req:a", "req:a"], max_connections=1, h2script={"frag": 2}, early=True))
+    if pid == "C12":
+        for ct in (["h2pk"] if quick else ["h2pk", "h2alpn", "tunnel-h2"]):
+            # cold connection: further requests arriving at every point of the first request's connection initialisation
+            # (one stream only until the server's SETTINGS have been read)
+            out.append(S(ct, ["req:a", "req:a:late", "req:a:late"], max_connections=1, early=False))
     if pid == "C03":
         # transparent re-sends: a stream refused by GOAWAY is sent again on another connection; both transmissions are decoded by the peer
         for ct in (["h2pk"] if quick else ["h2pk", "h2alpn"]):
